@@ -151,7 +151,14 @@ def form_case(ctx, form):
         if m["outcome"] == "ok":
             d = diff_obs(canon_obs(obs), canon_obs(m))
             if d:
-                ctx.mismatch("observation: " + d[:600], case, "see detail", "see detail")
+                # the model copies the open finding F39; a tree in which F39 is repaired agrees with the
+                # model variant that has the repair (= the spec's label ref) and is not a mismatch
+                m2 = ctx.driver.call("choices.model", f39_fixed=True, **model_input(form))
+                if m2["outcome"] == "ok" and not diff_obs(canon_obs(obs), canon_obs(m2)):
+                    ctx.count("agrees-with-F39-repaired-model")
+                    ctx.notes["F39_repaired_in_tree"] = True
+                else:
+                    ctx.mismatch("observation: " + d[:600], case, "see detail", "see detail")
         elif m["outcome"] == "error":
             ctx.mismatch("model rejects (" + m["kind"] + "), implementation accepts", case, "ok", m["kind"])
             ctx.fail(Failure("accepted-" + m["kind"], f"workbook the model rejects with {m['kind']} was accepted", case))
